@@ -548,4 +548,372 @@ theorem from_raw_ok_iff (o : Oracle) (ks : List Str) (data : Dict) (hp : ks.Perm
       rw [hr] at hk; simp only [kind, Except.ok.injEq] at hk
       exact absurd hk (fromRaw_group_ne_nil hr)
     | raised c => rw [hr] at hk; cases hk
+
+/-- no converter lets an undocumented exception through for a value of `data` (the C11 obligation of the
+component parsers, stated on the dict at hand) -/
+def NoEscape (o : Oracle) (data : Dict) : Prop :=
+  ∀ k f, fieldOfRaw k = some f → ∀ c, conv o f (aget k data) ≠ .error (.escape c)
+
+theorem verdict_ne_escape {o : Oracle} {data : Dict} (hne : NoEscape o data) (age : Option Nat) (k c : Str) :
+    verdictOf o data age k ≠ .escape c := by
+  unfold verdictOf
+  cases hf : fieldOfRaw k with
+  | none => simp
+  | some f =>
+    have hr : KV.ofRead (conv o f (aget k data)) ≠ .escape c := by
+      cases hc : conv o f (aget k data) with
+      | ok v => simp [KV.ofRead]
+      | error e =>
+        cases e with
+        | invalid n => simp [KV.ofRead]
+        | escape c' =>
+          simp only [KV.ofRead, ne_eq, KV.escape.injEq]
+          rintro rfl; exact hne k f hf _ hc
+    obtain ⟨fa, hfa⟩ := ageOf_added f
+    cases age with
+    | none => exact hr
+    | some a =>
+      simp only [hfa]
+      split
+      · simp
+      · exact hr
+
+/-- the name the loop reports for `k` is the one the specification assigns -/
+theorem verdict_name_eq {o : Oracle} {data : Dict} (hne : NoEscape o data) (k : Str) :
+    KV.name (verdictOf o data (declaredAge data) k) = offenderOf o data k := by
+  unfold verdictOf offenderOf
+  cases hf : fieldOfRaw k with
+  | none => rfl
+  | some f =>
+    have hr : KV.name (KV.ofRead (conv o f (aget k data))) =
+        if Valid o f (aget k data) = true then none else some f.emailName := by
+      rw [← conv_ok_iff_valid]
+      cases hc : conv o f (aget k data) with
+      | ok v => simp [KV.ofRead, KV.name, okE]
+      | error e =>
+        cases e with
+        | invalid n => simp [KV.ofRead, KV.name, okE, conv_invalid_name hc]
+        | escape c => exact absurd hc (hne k f hf c)
+    cases hd : declared data with
+    | none => simpa only [declaredAge, hd, Option.bind_none] using hr
+    | some mv =>
+      obtain ⟨_, hmem⟩ := (declared_some_iff data mv).mp hd
+      obtain ⟨a, ha⟩ := indexOf_isSome_of_mem (versions_table ▸ hmem : mv ∈ validVersions)
+      obtain ⟨fa, hfa⟩ := ageOf_added f
+      have hage : declaredAge data = some a := by simp only [declaredAge, hd, Option.bind_some]; exact ha
+      simp only [hage, hfa, gated_iff f mv a fa ha hfa]
+      by_cases hgt : fa > a
+      · have : ¬ fa ≤ a := by omega
+        simp [hgt, this, KV.name]
+      · have : fa ≤ a := by omega
+        simp only [hgt, if_false, this, decide_true, Bool.not_true, Bool.false_eq_true]
+        exact hr
+
+/-- **C17, error reporting.**  When validation fails (and no component lets an undocumented exception through),
+the `ExceptionGroup` names exactly the offending fields of the specification — as a multiset, for every
+iteration order of the `frozenset`. -/
+theorem errors_are_exactly_offenders (o : Oracle) (ks : List Str) (data : Dict) (es : List Str)
+    (hp : ks.Perm (fieldsToCheck data)) (hne : NoEscape o data)
+    (h : fromRaw o ks data true = .group es) : es.Perm (offenders o data) := by
+  have hk := fromRaw_kind o ks data
+  rw [h, collect_noescape (fun v hv c => by
+    obtain ⟨k, _, rfl⟩ := List.mem_map.mp hv
+    exact verdict_ne_escape hne _ k c)] at hk
+  simp only [kind, Except.ok.injEq] at hk
+  subst hk
+  simp only [offenders, mvErrs, List.filterMap_map]
+  apply List.Perm.append_left
+  have : (KV.name ∘ verdictOf o data (declaredAge data)) = offenderOf o data :=
+    funext fun k => verdict_name_eq hne k
+  rw [this]
+  exact hp.filterMap _
+
+/-- under the same hypothesis the outcome is never anything but success or the group -/
+theorem never_raises_if_components_clean (o : Oracle) (ks : List Str) (data : Dict) (hne : NoEscape o data) (c : Str) :
+    fromRaw o ks data true ≠ .raised c := by
+  intro h
+  have hk := fromRaw_kind o ks data
+  rw [h] at hk
+  obtain ⟨k, _, hv⟩ := List.mem_map.mp (collect_error hk.symm)
+  exact verdict_ne_escape hne _ k c hv
+
+/-- conversely, whatever escapes from `from_raw` escaped from a converter of one of the visited keys -/
+theorem raises_only_from_components (o : Oracle) (ks : List Str) (data : Dict) (c : Str)
+    (h : fromRaw o ks data true = .raised c) :
+    ∃ k ∈ ks, ∃ f, fieldOfRaw k = some f ∧ conv o f (aget k data) = .error (.escape c) := by
+  have hk := fromRaw_kind o ks data
+  rw [h] at hk
+  obtain ⟨k, hks, hv⟩ := List.mem_map.mp (collect_error hk.symm)
+  refine ⟨k, hks, ?_⟩
+  unfold verdictOf at hv
+  cases hf : fieldOfRaw k with
+  | none => rw [hf] at hv; cases hv
+  | some f =>
+    rw [hf] at hv
+    refine ⟨f, rfl, ?_⟩
+    have hr : KV.ofRead (conv o f (aget k data)) = .escape c → conv o f (aget k data) = .error (.escape c) := by
+      cases conv o f (aget k data) with
+      | ok v => intro h; cases h
+      | error e => cases e <;> intro h <;> simp only [KV.ofRead, KV.escape.injEq, reduceCtorEq] at h; subst h; rfl
+    obtain ⟨fa, hfa⟩ := ageOf_added f
+    cases hage : declaredAge data with
+    | none => rw [hage] at hv; exact hr hv
+    | some a =>
+      rw [hage] at hv
+      simp only [hfa] at hv
+      split at hv
+      · cases hv
+      · exact hr hv
+
+/-- some component parser / standard-library call answers with the undocumented exception `c` -/
+def OracleEsc (o : Oracle) (c : Str) : Prop :=
+  ∃ s, o.name s = .esc c ∨ o.version s = .esc c ∨ o.spec s = .esc c ∨ o.req s = .esc c ∨ o.lic s = .esc c
+    ∨ o.ctype s = .esc c
+
+/-- `RawMetadata` typing of a value for a field (`None` is tolerated everywhere) -/
+def typedOk (f : Field) : Val → Bool
+  | .none => true
+  | .str _ => stringFields.contains f.rawName
+  | .list _ => listFields.contains f.rawName || f.rawName == Field.keywords.rawName
+  | .dict _ => dictFields.contains f.rawName
+
+theorem mapVerdicts_escape {fld : Str} {p : Str → Verdict} {l : List Str} {c : Str}
+    (h : mapVerdicts fld p l = .error (.escape c)) : ∃ s, p s = .esc c := by
+  induction l with
+  | nil => cases h
+  | cons s r ih =>
+    simp only [mapVerdicts] at h
+    cases hp : p s with
+    | ok c' =>
+      rw [hp] at h
+      cases hr : mapVerdicts fld p r with
+      | ok x => rw [hr] at h; cases h
+      | error e => rw [hr] at h; simp only [Except.map] at h; cases h; exact ih hr
+    | bad => rw [hp] at h; cases h
+    | esc c' => rw [hp] at h; cases h; exact ⟨s, hp⟩
+
+theorem map_escape {x : Except Exc (List Str)} {c : Str} (h : x.map Val.list = .error (.escape c)) :
+    x = .error (.escape c) := by
+  cases x with
+  | ok a => cases h
+  | error e => simpa [Except.map] using h
+
+theorem oneVerdict_escape {fld : Str} {v : Verdict} {k : Str → Val} {c : Str}
+    (h : oneVerdict fld v k = .error (.escape c)) : v = .esc c := by
+  cases v <;> simp only [oneVerdict] at h <;> cases h; rfl
+
+theorem esc_name {o : Oracle} {c s : Str} (h : o.name s = .esc c) : OracleEsc o c := ⟨s, .inl h⟩
+theorem esc_version {o : Oracle} {c s : Str} (h : o.version s = .esc c) : OracleEsc o c := ⟨s, .inr (.inl h)⟩
+theorem esc_spec {o : Oracle} {c s : Str} (h : o.spec s = .esc c) : OracleEsc o c := ⟨s, .inr (.inr (.inl h))⟩
+theorem esc_req {o : Oracle} {c s : Str} (h : o.req s = .esc c) : OracleEsc o c := ⟨s, .inr (.inr (.inr (.inl h)))⟩
+theorem esc_lic {o : Oracle} {c s : Str} (h : o.lic s = .esc c) : OracleEsc o c :=
+  ⟨s, .inr (.inr (.inr (.inr (.inl h))))⟩
+theorem esc_ctype {o : Oracle} {c s : Str} (h : o.ctype s = .esc c) : OracleEsc o c :=
+  ⟨s, .inr (.inr (.inr (.inr (.inr h))))⟩
+
+/-- on a `RawMetadata`-typed value a converter can only escape with what a component raised -/
+theorem conv_escape_from_component {o : Oracle} {f : Field} {v : Val} {c : Str} (ht : typedOk f v = true)
+    (h : conv o f (some v) = .error (.escape c)) : OracleEsc o c := by
+  simp only [conv, Option.getD_some] at h
+  split at h
+  · cases hp : process o f with
+    | none => rw [hp] at h; cases h
+    | some p =>
+      rw [hp] at h
+      cases f <;> simp only [process, Option.some.injEq, reduceCtorEq] at hp <;> subst hp <;> cases v <;>
+        first
+        | (simp only [typedOk] at ht; exact absurd ht (by decide +kernel))
+        | (rename_i hcond; exact absurd hcond (by decide +kernel))
+        | skip
+      all_goals
+        simp only [procMetadataVersion, procName, procVersion, procSummary, procContentType, procDynamic,
+          procProvidesExtra, procRequiresPython, procRequiresDist, procLicenseExpression, procLicenseFiles] at h
+      all_goals first
+        | (cases h; done)
+        | exact esc_spec (oneVerdict_escape h)
+        | exact esc_lic (oneVerdict_escape h)
+        | (obtain ⟨s, hs⟩ := mapVerdicts_escape (map_escape h); first | exact esc_name hs | exact esc_req hs)
+        | (split at h
+           all_goals first
+             | (cases h; done)
+             | exact esc_name (oneVerdict_escape h)
+             | exact esc_version (oneVerdict_escape h)
+             | (rename_i hc; cases h; exact esc_ctype hc)
+             | (split at h <;> cases h))
+  · cases h
+
+/-- a `RawMetadata`-typed dict and components that never raise an undocumented exception: `from_raw` answers
+with success or the `ExceptionGroup`, never with anything else -/
+theorem typed_clean_no_escape (o : Oracle) (data : Dict)
+    (ht : ∀ k f v, fieldOfRaw k = some f → aget k data = some v → typedOk f v = true)
+    (hc : ∀ c, ¬ OracleEsc o c) : NoEscape o data := by
+  intro k f hf c h
+  cases hv : aget k data with
+  | some v => rw [hv] at h; exact hc c (conv_escape_from_component (ht k f v hf hv) h)
+  | none =>
+    rw [hv] at h
+    have : conv o f (some .none) = .error (.escape c) := by simpa only [conv, Option.getD] using h
+    exact hc c (conv_escape_from_component (f := f) (v := .none) rfl this)
+
+/-! ### 7. attribute reads -/
+
+/-- **C17, history independence.**  On an instance obtained from `from_raw` (validated or not), after *any*
+sequence of attribute reads, reading `k` returns what the converter makes of the caller's original value —
+the same value (or the same exception) every time, in every order. -/
+theorem reads_history_independent (o : Oracle) (ks : List Str) (data : Dict) (v : Bool) (st : St)
+    (h : fromRaw o ks data v = .ok st) (hs : List Str) (k : Str) :
+    (getattr o k (reads o hs st).2).1 = readOf o data k ∧ (reads o hs st).1 = hs.map (readOf o data) := by
+  obtain ⟨h1, h2⟩ := reads_spec hs (fromRaw_inv h)
+  exact ⟨(getattr_spec h2 k).1, h1⟩
+
+/-- the state after any history still satisfies the cache invariant (so `_raw` and `__dict__` partition the keys) -/
+theorem reads_keep_invariant (o : Oracle) (ks : List Str) (data : Dict) (v : Bool) (st : St)
+    (h : fromRaw o ks data v = .ok st) (hs : List Str) : Inv o data (reads o hs st).2 :=
+  (reads_spec hs (fromRaw_inv h)).2
+
+/-- **absent optional fields read as `None`**, whatever was read before -/
+theorem absent_optional_none (o : Oracle) (ks : List Str) (data : Dict) (v : Bool) (st : St)
+    (h : fromRaw o ks data v = .ok st) (hs : List Str) (k : Str) (f : Field)
+    (hf : fieldOfRaw k = some f) (hopt : isRequired f = false) (habs : aget k data = none) :
+    (getattr o k (reads o hs st).2).1 = .ok .none := by
+  rw [(reads_history_independent o ks data v st h hs k).1]
+  simp only [readOf, hf, conv, habs, Option.getD_none, hopt, Bool.false_or, bne_self_eq_false,
+    Bool.false_eq_true, if_false]
+
+/-- enriched attributes are what the component parser returns (its canonical string form), e.g. -/
+theorem enriched_version (o : Oracle) (data : Dict) (s c : Str) (hs : s ≠ [])
+    (hv : aget Field.version.rawName data = some (.str s)) (ho : o.version s = .ok c) :
+    readOf o data Field.version.rawName = .ok (.str c) := by
+  have : s.isEmpty = false := by cases s <;> simp_all
+  simp [readOf, fieldOfRaw_rawName, conv, hv, isRequired_cases, process, procVersion, this, ho, oneVerdict]
+
+theorem enriched_requires_python (o : Oracle) (data : Dict) (s c : Str)
+    (hv : aget Field.requires_python.rawName data = some (.str s)) (ho : o.spec s = .ok c) :
+    readOf o data Field.requires_python.rawName = .ok (.str c) := by
+  simp [readOf, fieldOfRaw_rawName, conv, hv, isRequired_cases, process, procRequiresPython, ho, oneVerdict]
+
+theorem enriched_license_expression (o : Oracle) (data : Dict) (s c : Str)
+    (hv : aget Field.license_expression.rawName data = some (.str s)) (ho : o.lic s = .ok c) :
+    readOf o data Field.license_expression.rawName = .ok (.str c) := by
+  simp [readOf, fieldOfRaw_rawName, conv, hv, isRequired_cases, process, procLicenseExpression, ho, oneVerdict]
+
+/-- **C17, laziness.**  `validate=False` defers exactly the per-field verdict of the validating loop to
+attribute access: for a known field that the declared version does not exclude (or when no valid version is
+declared), what the loop records for `k` is what reading `k` on the lazy instance does, after any history. -/
+theorem lazy_same_errors (o : Oracle) (ks : List Str) (data : Dict) (hs : List Str) (k : Str) (f : Field)
+    (hf : fieldOfRaw k = some f) (hold : ∀ mv, declared data = some mv → oldEnough f mv = true) :
+    ∃ st, fromRaw o ks data false = .ok st ∧
+      verdictOf o data (declaredAge data) k = KV.ofRead (getattr o k (reads o hs st).2).1 := by
+  refine ⟨{ raw := data, cache := [] }, by simp [fromRaw], ?_⟩
+  obtain ⟨_, h2⟩ := reads_spec (o := o) hs (inv_init o data)
+  rw [(getattr_spec h2 k).1]
+  simp only [verdictOf, readOf, hf]
+  cases hd : declared data with
+  | none => simp only [declaredAge, hd, Option.bind_none]
+  | some mv =>
+    obtain ⟨_, hmem⟩ := (declared_some_iff data mv).mp hd
+    obtain ⟨a, ha⟩ := indexOf_isSome_of_mem (versions_table ▸ hmem : mv ∈ validVersions)
+    obtain ⟨fa, hfa⟩ := ageOf_added f
+    have hage : declaredAge data = some a := by simp only [declaredAge, hd, Option.bind_some]; exact ha
+    have := hold mv hd
+    rw [gated_iff f mv a fa ha hfa, decide_eq_true_eq] at this
+    have hgt : ¬ fa > a := by omega
+    simp only [hage, hfa, hgt, if_false]
+
+/-- … and the error deferred to access is one of those the validating constructor reports -/
+theorem lazy_error_in_group (o : Oracle) (ks : List Str) (data : Dict) (es : List Str) (k n : Str) (f : Field)
+    (hne : NoEscape o data) (hk : k ∈ ks) (hf : fieldOfRaw k = some f)
+    (hold : ∀ mv, declared data = some mv → oldEnough f mv = true)
+    (hg : fromRaw o ks data true = .group es)
+    (hread : readOf o data k = .error (.invalid n)) : n ∈ es := by
+  obtain ⟨st, _, hv⟩ := lazy_same_errors o ks data [] k f hf hold
+  simp only [reads] at hv
+  have hst : st = { raw := data, cache := [] } := by
+    have : fromRaw o ks data false = .ok { raw := data, cache := [] } := by simp [fromRaw]
+    rename_i h; rw [this] at h; cases h; rfl
+  subst hst
+  rw [(getattr_spec (inv_init o data) k).1, hread] at hv
+  have hkk := fromRaw_kind o ks data
+  rw [hg, collect_noescape (fun v hv c => by
+    obtain ⟨k, _, rfl⟩ := List.mem_map.mp hv
+    exact verdict_ne_escape hne _ k c)] at hkk
+  simp only [kind, Except.ok.injEq] at hkk
+  subst hkk
+  apply List.mem_append_right
+  exact List.mem_filterMap.mpr ⟨_, List.mem_map_of_mem hk, by rw [hv]; rfl⟩
+
+/-- `from_email`: unparsed keys are reported first and alone, otherwise it is `from_raw` of the parsed dict -/
+theorem from_email_spec (o : Oracle) (ks : List Str) (raw : Dict) (unparsed : List Str) :
+    fromEmail o ks raw unparsed true = (if unparsed = [] then fromRaw o ks raw true else .group unparsed) ∧
+    fromEmail o ks raw unparsed false = fromRaw o ks raw false := by
+  cases unparsed <;> simp [fromEmail]
+
+/-! ### 8. non-vacuity: concrete oracles and dicts on which the hypotheses hold and the outcomes differ -/
+
+deriving instance DecidableEq for Except
+
+theorem ok_of_kind_nil {o : Oracle} {ks : List Str} {data : Dict}
+    (h : kind (fromRaw o ks data true) = .ok []) : ∃ st, fromRaw o ks data true = .ok st := by
+  cases hr : fromRaw o ks data true with
+  | ok st => exact ⟨st, rfl⟩
+  | group es => rw [hr] at h; simp only [kind, Except.ok.injEq] at h; exact absurd h (fromRaw_group_ne_nil hr)
+  | raised c => rw [hr] at h; cases h
+
+namespace Ex
+/-- a small component world: name `foo`, versions `1.0` / ` 1.0` (canonical `1.0`), `boom` makes the version
+parser raise an undocumented `ValueError` -/
+def o1 : Oracle where
+  name s := if s = ofString "foo" then .ok s else .bad
+  version s := if s = ofString "1.0" ∨ s = ofString " 1.0" then .ok (ofString "1.0")
+               else if s = ofString "boom" then .esc (ofString "ValueError") else .bad
+  spec s := .ok s
+  req s := .ok s
+  lic _ := .bad
+  ctype s := .parsed s none none
+  lower s := s
+  posixAbs _ := false
+  winAbs _ := false
+  winPosix s := s
+
+def good : Dict :=
+  [(ofString "name", .str (ofString "foo")), (ofString "metadata_version", .str (ofString "2.1")),
+   (ofString "version", .str (ofString " 1.0")), (ofString "summary", .str (ofString "hi")),
+   (ofString "provides_extra", .list [ofString "foo"])]
+
+/-- Version missing, `dynamic` too new for 1.2, two-line summary, unknown key -/
+def bad : Dict :=
+  [(ofString "name", .str (ofString "foo")), (ofString "metadata_version", .str (ofString "1.2")),
+   (ofString "bogus", .str (ofString "x")), (ofString "dynamic", .list []),
+   (ofString "summary", .str (ofString "a\nb"))]
+
+def boom : Dict := (ofString "version", Val.str (ofString "boom")) :: good
+
+example : Acceptable o1 good :=
+  (from_raw_ok_iff o1 _ good (List.Perm.refl _)).mp (ok_of_kind_nil (by decide +kernel))
+
+example : ¬ Acceptable o1 bad := fun h => by
+  obtain ⟨st, hst⟩ := (from_raw_ok_iff o1 (fieldsToCheck bad).reverse bad (List.reverse_perm _)).mpr h
+  have : kind (fromRaw o1 (fieldsToCheck bad).reverse bad true) ≠ .ok [] := by decide +kernel
+  exact this (by rw [hst]; rfl)
+
+/-- the group for `bad`, visiting the keys in reverse order, and the specification's offenders -/
+example : kind (fromRaw o1 (fieldsToCheck bad).reverse bad true) =
+    .ok [ofString "version", ofString "summary", ofString "dynamic", ofString "bogus"] ∧
+    offenders o1 bad = [ofString "bogus", ofString "dynamic", ofString "summary", ofString "version"] := by
+  decide +kernel
+
+/-- an undocumented exception of a component does escape (so `NoEscape` is a real hypothesis) … -/
+example : kind (fromRaw o1 (fieldsToCheck boom) boom true) = .error (ofString "ValueError") := by decide +kernel
+
+/-- … and it is satisfiable: an oracle that never escapes, on typed dicts -/
+def o2 : Oracle := { o1 with version := fun s => if s = ofString "1.0" then .ok s else .bad }
+example : ∀ c, ¬ OracleEsc o2 c := by
+  rintro c ⟨s, h | h | h | h | h | h⟩ <;> simp only [o2, o1] at h <;> (repeat' split at h) <;> cases h
+
+/-- reads with repeats on the lazy instance: conversion happens once, absent optional is `None` -/
+example : (reads o1 [ofString "version", ofString "license", ofString "version", ofString "name"]
+      { raw := good, cache := [] }).1
+    = [.ok (.str (ofString "1.0")), .ok .none, .ok (.str (ofString "1.0")), .ok (.str (ofString "foo"))] := by
+  decide +kernel
+end Ex
 end C17
